@@ -5,6 +5,7 @@ import (
 	"go/constant"
 	"go/token"
 	"go/types"
+	"golang.org/x/tools/go/ast/astutil"
 	"sort"
 	"strings"
 
@@ -133,13 +134,13 @@ func bodyRejects(pk *packages.Package, body []ast.Stmt) bool {
 
 // enumSwitchTable: switch on an enum-typed tag whose clauses return a constant of another enum type.
 type enumSwitchTable struct {
-	Fn      *ast.FuncDecl
-	Pos     token.Pos
-	TagType *types.Named
-	ResType *types.Named
-	Map     map[string]string // tag const value -> result const value (ExactString)
-	Names   map[string]string // tag value -> first constant name used in the case
-	Default bool
+	Fn       *ast.FuncDecl
+	Pos      token.Pos
+	TagType  *types.Named
+	ResType  *types.Named
+	Map      map[string]string // tag const value -> result const value (ExactString)
+	Names    map[string]string // tag value -> first constant name used in the case
+	Default  bool
 	DefaultE bool
 }
 
@@ -232,12 +233,19 @@ func enumUniverse(nt *types.Named) map[string]string {
 
 // structLiteral describes one keyed composite literal.
 type structLit struct {
-	Pos     token.Pos
-	Fn      *ast.FuncDecl
-	Type    *types.Named
-	Keyed   map[string]bool
-	Empty   bool
-	Holder  types.Object // variable the literal (or its address) is assigned to, if any
+	Pos    token.Pos
+	Fn     *ast.FuncDecl
+	Type   *types.Named
+	Keyed  map[string]bool
+	Empty  bool
+	Holder types.Object // variable the literal (or its address) is assigned to, if any
+	// Guards: for every enclosing if statement, the condition and whether the literal sits in its then-branch
+	Guards []litGuard
+}
+
+type litGuard struct {
+	Cond ast.Expr
+	Then bool
 }
 
 func collectStructLits(pk *packages.Package, want func(*types.Named) bool) []*structLit {
@@ -285,6 +293,13 @@ func collectStructLits(pk *packages.Package, want func(*types.Named) bool) []*st
 					return true
 				}
 				sl := &structLit{Pos: cl.Pos(), Fn: fd, Type: nt, Keyed: map[string]bool{}, Empty: len(cl.Elts) == 0, Holder: holder[cl]}
+				if path, _ := astutil.PathEnclosingInterval(f, cl.Pos(), cl.End()); len(path) > 0 {
+					for i := 1; i < len(path); i++ {
+						if is, isIf := path[i].(*ast.IfStmt); isIf {
+							sl.Guards = append(sl.Guards, litGuard{Cond: is.Cond, Then: path[i-1] == ast.Node(is.Body)})
+						}
+					}
+				}
 				for _, e := range cl.Elts {
 					if kv, ok := e.(*ast.KeyValueExpr); ok {
 						if id, ok := kv.Key.(*ast.Ident); ok {
